@@ -301,6 +301,13 @@ def run_unit(unit, rlimit=None, seed=None, vac=True, quiet=False, known=()):
     res["assumed_notes"] = [ln.strip().lstrip("/ ").strip() for ln in text.split("\n") if "ASSUMED" in ln]
     if re.search(r"\b(assume|admit)\s*\(", re.sub(r"//[^\n]*", "", text)):
         undecided.append({"message": "assume()/admit() present in generated unit: refused"})
+    # ghost state on a field-less type is a constant: an environment that changes it is inconsistent (vx/lint.py)
+    try:
+        import lint as _lint
+    except ImportError:
+        from vx import lint as _lint
+    for h in _lint.ghost_on_fieldless(text):
+        undecided.append({"message": "environment refused: " + h})
     if rounds:
         # the counts reported are those of the re-verification with the listed known clauses blanked: what is claimed as
         # proved excludes exactly the known-finding obligations, which are counted separately
